@@ -147,17 +147,21 @@ Fixpoint rep {A : Type} (p : parser A) (n : nat) (b : bytes) : option (list A * 
            end
   end.
 
-Record row := mkRow { r_qid : N; r_id : N; r_parent : N; r_cont : N; r_active : bool; r_data : bytes }.
+(* r_mod: rowType.isActiveModified - sys.IsActive was assigned by the event the row belongs to
+   (ICUDRow.IsActivated / IsDeactivated of an update row) *)
+Record row := mkRow { r_qid : N; r_id : N; r_parent : N; r_cont : N; r_active : bool; r_data : bytes; r_mod : bool }.
 Inductive obj := Obj (r : row) (kids : list obj).
-(* c_actmod: ICUDRow.IsActivated/IsDeactivated (rowType.isActiveModified); not part of the stored form *)
-Record cud := mkCud { c_row : row; c_emptied : list N; c_actmod : bool }.
+Record cud := mkCud { c_row : row; c_emptied : list N }.
+(* ICUDRow.IsActivated / IsDeactivated of an update row (both false on a new row) *)
+Definition activated (c : cud) : bool := r_mod (c_row c) && r_active (c_row c).
+Definition deactivated (c : cud) : bool := r_mod (c_row c) && negb (r_active (c_row c)).
 Record event := mkEvent {
   e_qid : N; e_part : N; e_poffs : N; e_ws : N; e_woffs : N; e_reg : N;
   e_sync : bool; e_dev : N; e_syncat : N;
   e_valid : bool; e_errstr : bytes; e_errname : bytes; e_errbytes : bytes;
   e_arg : obj; e_unl : obj; e_creates : list cud; e_updates : list cud }.
 
-Definition null_row : row := mkRow 0 0 0 0 true [].
+Definition null_row : row := mkRow 0 0 0 0 true [] false.
 Definition null_obj : obj := Obj null_row [].
 Definition root (o : obj) : row := match o with Obj r _ => r end.
 
@@ -172,20 +176,24 @@ Definition b2n (b : bool) : N := if b then 1 else 0.
 Definition nlen {A} (l : list A) : N := N.of_nat (length l).
 
 (* ---- store ---- *)
-Definition mask_of (r : row) : N :=
+(* the mask as it was before 35e511a40: no bit for "sys.IsActive was assigned" *)
+Definition mask_of_old (r : row) : N :=
   (if r_id r =? 0 then 0 else c02_sfm_id) + (if r_parent r =? 0 then 0 else c02_sfm_parent)
   + (if r_cont r =? 0 then 0 else c02_sfm_container) + (if r_active r then 0 else c02_sfm_active).
+Definition mask_of (r : row) : N :=
+  mask_of_old r + (if c02_mask_carries_actmod && r_mod r then c02_sfm_actmod else 0).
 
 (* storeRow + storeRowSysFields *)
-Definition enc_row (r : row) : bytes :=
+Definition enc_row_with (mask : row -> N) (r : row) : bytes :=
   be 2 (r_qid r) ++
   if r_qid r =? 0 then [] else
-    be 2 (mask_of r)
+    be 2 (mask r)
     ++ (if r_id r =? 0 then [] else be 8 (r_id r))
     ++ (if r_parent r =? 0 then [] else be 8 (r_parent r))
     ++ (if r_cont r =? 0 then [] else be 2 (r_cont r))
     ++ (if r_active r then [] else [0])
     ++ be 4 (nlen (r_data r)) ++ r_data r.
+Definition enc_row : row -> bytes := enc_row_with mask_of.
 
 (* storeObject *)
 Fixpoint enc_obj (o : obj) : bytes :=
@@ -235,7 +243,7 @@ Definition dec_row (s : schema) (v : N) : parser row := fun b =>
   do (act, b) <- (if has m c02_sfm_active then rd_bool b else Some (true, b));
   do (len, b) <- rdn 4 b;
   do (data, b) <- take_n len b;
-  Some (mkRow q id par cont act data, b).
+  Some (mkRow q id par cont act data (c02_mask_carries_actmod && has m c02_sfm_actmod), b).
 
 (* loadObject; fuel bounds the nesting depth *)
 Fixpoint dec_obj (fuel : nat) (s : schema) (v : N) (b : bytes) : option (obj * bytes) :=
@@ -252,11 +260,11 @@ Fixpoint dec_obj (fuel : nat) (s : schema) (v : N) (b : bytes) : option (obj * b
 (* loadEventCUD *)
 Definition dec_cud (s : schema) (v : N) : parser cud := fun b =>
   do (r, b) <- dec_row s v b;
-  if v <? c02_codec_emptied_since then Some (mkCud r [] false, b) else
+  if v <? c02_codec_emptied_since then Some (mkCud r [], b) else
   do (cnt, b) <- rdn 2 b;
   if nlen b <? 2 * cnt then None else
   do (es, b) <- rep (fun b => do (i, b) <- rdn 2 b; if s_emptied s (r_qid r) i then Some (i, b) else None) (N.to_nat cnt) b;
-  Some (mkCud r es false, b).
+  Some (mkCud r es, b).
 
 Definition dec_error (s : schema) : parser (bytes * bytes * bytes) := fun b =>
   do (es, b) <- rd_str b;
@@ -301,15 +309,18 @@ Definition decode (s : schema) (b : bytes) : option event :=
 
 Definition proper_prefix (p b : bytes) : Prop := exists ext, ext <> [] /\ b = p ++ ext.
 
-(* what the log keeps of an event.  Valid event: everything but the activation flags of CUD rows.
-   Event that is not valid (build error, sys.Corrupted): only the error record - message and original
-   name cut to 65535 bytes, original bytes unless the command has an unlogged argument; the
-   builder's argument objects and CUD rows are not stored. *)
-Definition clear_cud (c : cud) : cud := mkCud (c_row c) (c_emptied c) false.
+(* what the log keeps of an event.  Valid event: everything (the rows' "sys.IsActive was assigned"
+   marks too, when the mask carries them).  Event that is not valid (build error, sys.Corrupted):
+   only the error record - message and original name cut to 65535 bytes, original bytes unless the
+   command has an unlogged argument; the builder's argument objects and CUD rows are not stored. *)
+Definition clear_row (r : row) : row := mkRow (r_qid r) (r_id r) (r_parent r) (r_cont r) (r_active r) (r_data r) false.
+Fixpoint clear_obj (o : obj) : obj := match o with Obj r ks => Obj (clear_row r) (map clear_obj ks) end.
+Definition clear_cud (c : cud) : cud := mkCud (clear_row (c_row c)) (c_emptied c).
 Definition stored_form (e : event) : event :=
   if stored_valid e then
+    if c02_mask_carries_actmod then e else
     mkEvent (e_qid e) (e_part e) (e_poffs e) (e_ws e) (e_woffs e) (e_reg e) (e_sync e) (e_dev e) (e_syncat e)
-            (e_valid e) (e_errstr e) (e_errname e) (e_errbytes e) (e_arg e) (e_unl e)
+            (e_valid e) (e_errstr e) (e_errname e) (e_errbytes e) (clear_obj (e_arg e)) (clear_obj (e_unl e))
             (map clear_cud (e_creates e)) (map clear_cud (e_updates e))
   else
     mkEvent (e_qid e) (e_part e) (e_poffs e) (e_ws e) (e_woffs e) (e_reg e) (e_sync e) (e_dev e) (e_syncat e)
@@ -358,7 +369,7 @@ Definition sch_masks (t : list (N * N)) : schema :=
 
 Definition row_eqb (a b : row) : bool :=
   (r_qid a =? r_qid b) && (r_id a =? r_id b) && (r_parent a =? r_parent b) && (r_cont a =? r_cont b)
-  && Bool.eqb (r_active a) (r_active b) && lex_eqb (r_data a) (r_data b).
+  && Bool.eqb (r_active a) (r_active b) && lex_eqb (r_data a) (r_data b) && Bool.eqb (r_mod a) (r_mod b).
 Fixpoint obj_eqb (a b : obj) : bool :=
   match a, b with
   | Obj r ks, Obj r' ks' =>
@@ -374,7 +385,7 @@ Fixpoint obj_eqb (a b : obj) : bool :=
 Definition nset_eqb (a b : list N) : bool :=
   (length a =? length b)%nat && forallb (fun x => existsb (N.eqb x) b) a && forallb (fun x => existsb (N.eqb x) a) b.
 Definition cud_eqb (a b : cud) : bool :=
-  row_eqb (c_row a) (c_row b) && nset_eqb (c_emptied a) (c_emptied b) && Bool.eqb (c_actmod a) (c_actmod b).
+  row_eqb (c_row a) (c_row b) && nset_eqb (c_emptied a) (c_emptied b).
 (* updates are kept in a Go map keyed by record id: compared as sets *)
 Definition cudset_eqb (a b : list cud) : bool :=
   (length a =? length b)%nat && forallb (fun x => existsb (cud_eqb x) b) a && forallb (fun x => existsb (cud_eqb x) a) b.
@@ -386,13 +397,16 @@ Definition event_eqb (a b : event) : bool :=
   && obj_eqb (e_arg a) (e_arg b) && obj_eqb (e_unl a) (e_unl b)
   && list_eqb cud_eqb (e_creates a) (e_creates b) && cudset_eqb (e_updates a) (e_updates b).
 
-Definition strip_row (r : row) : row := mkRow (r_qid r) (r_id r) (r_parent r) (r_cont r) (r_active r) [].
-Fixpoint strip_obj (o : obj) : obj := match o with Obj r ks => Obj (strip_row r) (map strip_obj ks) end.
-Definition strip_cud (c : cud) : cud := mkCud (strip_row (c_row c)) (c_emptied c) (c_actmod c).
+(* what an accessor dump shows of a row: no payload; the "assigned" mark only on update rows
+   (through IsActivated / IsDeactivated) *)
+Definition strip_row (keep_mod : bool) (r : row) : row :=
+  mkRow (r_qid r) (r_id r) (r_parent r) (r_cont r) (r_active r) [] (keep_mod && r_mod r).
+Fixpoint strip_obj (o : obj) : obj := match o with Obj r ks => Obj (strip_row false r) (map strip_obj ks) end.
+Definition strip_cud (is_new : bool) (c : cud) : cud := mkCud (strip_row (negb is_new) (c_row c)) (c_emptied c).
 Definition strip (e : event) : event :=
   mkEvent (e_qid e) (e_part e) (e_poffs e) (e_ws e) (e_woffs e) (e_reg e) (e_sync e) (e_dev e) (e_syncat e)
           (e_valid e) (e_errstr e) (e_errname e) (e_errbytes e) (strip_obj (e_arg e)) (strip_obj (e_unl e))
-          (map strip_cud (e_creates e)) (map strip_cud (e_updates e)).
+          (map (strip_cud true) (e_creates e)) (map (strip_cud false) (e_updates e)).
 
 Fixpoint set_nth (i : nat) (x : N) (b : bytes) : bytes :=
   match b, i with
